@@ -192,6 +192,21 @@ def execute(case):
         storage = harness.DeepCopyDict()
         bi = BenignInit('bi', persistent=True, initdef=1, init_timeout=2, stop_timeout=2)
         storage[bi.key] = 'junk'
+        # library blocks whose saved state is unusable (damaged file, other version): the failure of
+        # the restoration is only logged, the blocks start from their arguments
+        lib = [
+            (edzed.TimeDate('ptd', times='1:00-2:00', persistent=True),
+             {'times': [[[25, 0, 0, 0], [26, 0, 0, 0]]], 'dates': None, 'weekdays': None}),
+            (edzed.TimeDate('ptd2', weekdays='1', persistent=True), {'times': None, 'dates': None, 'weekdays': [9]}),
+            (edzed.TimeSpan('pts', span='2020-01-01 0:00 / 2020-01-02 0:00', persistent=True),
+             {'span': [[[2020, 13, 1, 0, 0, 0, 0], [2020, 1, 2, 0, 0, 0, 0]]]}),
+            (edzed.Counter('pcn', modulo=7, persistent=True), 'abc'),
+            (edzed.Input('pin', initdef=1, check=lambda v: v > 0, persistent=True), -5),
+            (edzed.Timer('ptm', t_on=100, persistent=True), ['no_such_state', None, {}]),
+            (edzed.InputExp('pie', duration=100, initdef=3, persistent=True), 5),
+        ]
+        for blk, saved in lib:
+            storage[blk.key] = saved
         circuit.set_persistent_data(storage)
         if case['mt_at'] is not None:
             MT('mt', x_at=case['mt_at'])
